@@ -532,7 +532,8 @@ pub fn run(toks: &[&str]) -> Lines {
                     },
                     "DF" => {
                         let mut b = std::fs::read(&p).unwrap();
-                        let off: usize = op[3].parse::<usize>().unwrap() % (b.len() * 8);
+                        // (an empty file planted by an earlier DP step has no bit to flip)
+                        let off: usize = op[3].parse::<usize>().unwrap() % (b.len() * 8).max(1);
                         let pat: u32 = op[4].parse().unwrap();
                         for j in 0..32 {
                             if (pat >> j) & 1 == 1 && off + j < b.len() * 8 {
@@ -543,7 +544,7 @@ pub fn run(toks: &[&str]) -> Lines {
                     },
                     "DT" => {
                         let b = std::fs::read(&p).unwrap();
-                        let m: usize = op[3].parse::<usize>().unwrap().clamp(1, b.len());
+                        let m: usize = op[3].parse::<usize>().unwrap().max(1).min(b.len());
                         std::fs::write(&p, &b[..b.len() - m]).unwrap();
                     },
                     "DX" => {
